@@ -14,9 +14,9 @@ DEMO=$(cd $WT && git status --porcelain | grep '^??' | grep '_test.go' | awk '{p
 cp $WT/$DEMO $D/ 2>/dev/null
 PKG=./$(dirname $DEMO)
 cd $WT
-echo "== demo with change (expect FAIL)"; go test -vet=off -count=1 -run 'Demo' $PKG > $D/demo_with.txt 2>&1; W=$?; tail -3 $D/demo_with.txt
+echo "== demo with change (expect FAIL)"; go test ${DEMO_FLAGS:-} -vet=off -count=1 -run 'Demo' $PKG > $D/demo_with.txt 2>&1; W=$?; tail -3 $D/demo_with.txt
 git apply -R MUTATION.diff
-echo "== demo without change (expect ok)"; go test -vet=off -count=1 -run 'Demo' $PKG > $D/demo_without.txt 2>&1; WO=$?; tail -2 $D/demo_without.txt
+echo "== demo without change (expect ok)"; go test ${DEMO_FLAGS:-} -vet=off -count=1 -run 'Demo' $PKG > $D/demo_without.txt 2>&1; WO=$?; tail -2 $D/demo_without.txt
 git apply MUTATION.diff
 mv $DEMO /tmp/demo_$ID.go.bak
 echo "== full suite with change (expect green)"; go test -vet=off -count=1 ./... > $D/suite_with.txt 2>&1; S=$?; grep -v "no test files" $D/suite_with.txt | grep -v "^ok" | head -5
